@@ -282,10 +282,12 @@ def check_C04(tier, seed):
                       'input environment, on the program regenerated from calculate_r2: the residuals of the two block rows of the assembled '
                       'linear system are identically the two O(r^2) differential equations written in full form (props/C04_spec.v), the two '
                       'algebraic constraints hold identically, and G2, beta_1s, B20 mean/residual/variation equal their closed forms. '
+                      'Closed form of B20 (the property names no formula; the independent statement is the one of C01): the r^2, theta-averaged coefficient of |B|^2 (w . e_phi) - G (G + iota I) built from the '
+                      'returned geometry alone vanishes with the returned B20 (props/C01_r2b.v: modB2, over the facts extracted from the regenerated calculate_r2 in props/C01_facts2.v). '
                       'Assumed (validated by the harness each run): np.linalg.solve returns a solution of the assembled system. Not proved: '
                       'size of the float residual relative to conditioning.',
-                      gprops=False, seq_obligations=['props/C04_spec.v', 'props/C04.v'],
-                      theorems=['C04_system_h0', 'C04_system_hN', 'C04_closed_h0', 'C04_closed_hN'])
+                      gprops=False, seq_obligations=['props/C04_spec.v', ['props/C04.v', 'props/C01_spec.v'], 'props/C01_common.v', ['props/C01_facts2.v', 'props/C01_r1.v'], 'props/C01_r2base.v', 'props/C01_r2b.v'],
+                      theorems=['C04_system_h0', 'C04_system_hN', 'C04_closed_h0', 'C04_closed_hN', 'C01_facts2.r2_facts_of_stage_h0', 'C01_facts2.r2_facts_of_stage_hN', 'C01_r2b.modB2'])
 
 
 def check_C02(tier, seed):
@@ -319,9 +321,15 @@ def check_C20(tier, seed):
                       'polynomial of that degree exactly at every x, takes the sample values at the nodes and is continuous; the interpolants of the nfp = k and nfp = 1 declarations have the same range. '
                       'Even n (theories/EvenKernel.v): over the reals 1/tan(pi/2) = 0, so the conditional even-n structure theorems hold outright; entry formula with cot, kernel form, exact differentiation of cos(p x) for p <= n/2 and sin(p x) for p < n/2, '
                       'exact interpolation of the same; the Nyquist sine (identically 0 on the grid) is annihilated by both, which is inherent to an even grid and stated explicitly (Dspec_even_nyquist_sin, interp_even_nyquist_sin). '
-                      'NOT proved (harness only): Newton convergence on smooth well-posed systems; floats are idealised as reals in the exactness statements.',
-                      gprops=False, seq_obligations=[], theory_obligations=['Newton', 'DiffMat', 'Bracket', 'TrigSum', 'DiffKernel', 'InterpKernel', 'EvenKernel', 'FloatOrder'],
-                      theorems=['FloatOrder.newton_never_worse_float', 'FloatOrder.newton_no_warning_means_best_small_float', 'FloatOrder.min_le_samples_float', 'FloatOrder.shift_invariance_of_decisions_float', 'EvenKernel.Dspec_even_entry', 'EvenKernel.Dspec_even_exact_trigpoly', 'EvenKernel.Dspec_even_nyquist_sin', 'EvenKernel.interp_even_is_kernel', 'EvenKernel.interp_even_exact_trigpoly', 'InterpKernel.interp_is_kernel', 'InterpKernel.interp_exact_trigpoly', 'InterpKernel.kinterp_node', 'InterpKernel.kinterp_continuous', 'InterpKernel.interp_replicates', 'DiffKernel.Dspec_entry', 'DiffKernel.Dspec_kernel', 'DiffKernel.Dspec_exact_cos', 'DiffKernel.Dspec_exact_sin', 'DiffKernel.Dspec_exact_trigpoly', 'DiffKernel.trigpoly_derive',
+                      'Newton convergence (theories/NewtonConv.v, over the reals): (A) on the control model, if every first line-search trial from a point with norm >= tol contracts the norm by q < 1 (satisfiable: Example halving), '
+                      'every iteration accepts its first trial, norms decay geometrically, and if q^m |f x0| < tol for some m < niter the run ends with tolerance achieved, NO warning, best = the first index below tol '
+                      '(newton_converges_ctl); (B) for a scalar f with |f\'| >= m > 0, |f\'\'| <= M on [a,b] the full Newton step satisfies |f(x\')| <= M/(2 m^2) f(x)^2 (Taylor-Lagrange), hence the contraction hypothesis holds '
+                      'once M/(2m^2)|f x0| <= q, and the control model run on the stream |f x_k| of the real iteration converges as in (A) (newton_converges_scalar; newton_converges_scalar_ball discharges "iterates stay in [a,b]" '
+                      'from a Kantorovich ball condition; Example sqrt 2). The corner m = niter is REFUTED as a convergence report: tolerance first met at the last allowed evaluation => achieved flag false and the warning is decided by the norm '
+                      'BEFORE the last step (corner_hit_at_niter; reproduced on the real code: f(x)=x, x0=100, niter=1 returns 0 and warns "Final residual: 100") -- a spurious warning, allowed by the property (it only forbids silent failure). '
+                      'NOT proved: the n-dimensional Newton-Kantorovich theorem; floats are idealised as reals in the exactness and convergence statements.',
+                      gprops=False, seq_obligations=[], theory_obligations=['Newton', 'DiffMat', 'Bracket', 'TrigSum', 'DiffKernel', 'InterpKernel', 'EvenKernel', 'FloatOrder', 'NewtonConv'],
+                      theorems=['NewtonConv.newton_converges_ctl', 'NewtonConv.every_first_trial_accepted', 'NewtonConv.newton_step_quadratic', 'NewtonConv.newton_converges_scalar', 'NewtonConv.newton_converges_scalar_ball', 'NewtonConv.corner_hit_at_niter', 'FloatOrder.newton_never_worse_float', 'FloatOrder.newton_no_warning_means_best_small_float', 'FloatOrder.min_le_samples_float', 'FloatOrder.shift_invariance_of_decisions_float', 'EvenKernel.Dspec_even_entry', 'EvenKernel.Dspec_even_exact_trigpoly', 'EvenKernel.Dspec_even_nyquist_sin', 'EvenKernel.interp_even_is_kernel', 'EvenKernel.interp_even_exact_trigpoly', 'InterpKernel.interp_is_kernel', 'InterpKernel.interp_exact_trigpoly', 'InterpKernel.kinterp_node', 'InterpKernel.kinterp_continuous', 'InterpKernel.interp_replicates', 'DiffKernel.Dspec_entry', 'DiffKernel.Dspec_kernel', 'DiffKernel.Dspec_exact_cos', 'DiffKernel.Dspec_exact_sin', 'DiffKernel.Dspec_exact_trigpoly', 'DiffKernel.trigpoly_derive',
                                 'DiffKernel.Dspec_replicates', 'DiffMat.DR_antisym', 'DiffMat.DR_circulant', 'DiffMat.DR_rowsum', 'DiffMat.DR_shift', 'DiffMat.DR_rev',
                                 'Newton.never_worse_than_initial', 'Newton.accepted_chain_decreasing', 'Newton.no_warning_means_best_small'])
 
@@ -545,8 +553,8 @@ NO_FLOAT_TIE = {'C16', 'C17', 'C18', 'C20'}
 # hand-written theories each check depends on (others are not built, so work in progress elsewhere cannot disturb it)
 NEEDS = {
     'C08': ['Expr', 'Equiv', 'Dim'], 'C07': ['Expr', 'Equiv', 'Sign', 'Shift', 'Shallow', 'DiffMat'], 'C05': ['Expr', 'Equiv', 'Sign', 'Shift', 'Shallow', 'DiffMat'],
-    'C04': ['Expr', 'Shallow'], 'C11': ['Expr', 'Shallow', 'Series'], 'C13': ['Expr', 'Shallow', 'Quadrant', 'Winding'], 'C19': ['Expr', 'Equiv', 'Dim', 'Sign'], 'C17': ['Expr', 'Effects'], 'C12': ['Expr', 'Equiv', 'Dim', 'Sign', 'Shallow', 'RootSelect', 'Series', 'Newton', 'Bracket', 'FloatOrder'], 'C16': ['Expr', 'Effects', 'ObjModel'], 'C09': ['Expr', 'Shallow', 'Pipeline'], 'C03': ['Expr', 'Shallow', 'Pipeline'], 'C06': ['Expr', 'Equiv', 'Sign', 'Shift', 'Replicate', 'DiffMat', 'TrigSum', 'DiffKernel', 'Bracket', 'InterpKernel'], 'C14': ['Expr', 'Shallow', 'TrigSum'], 'C15': ['Expr', 'Shallow', 'TrigSum', 'VmecEmit'], 'C18': ['Expr', 'ObjModel'], 'C10': ['Expr', 'Shallow'], 'C01': ['Expr', 'Shallow', 'Series'], 'C02': ['Expr', 'Shallow', 'Newton', 'RootSelect', 'Bracket', 'FloatOrder'],
-    'C20': ['Expr', 'Equiv', 'Sign', 'Shift', 'Replicate', 'DiffMat', 'Newton', 'Bracket', 'RootSelect', 'TrigSum', 'DiffKernel', 'InterpKernel', 'EvenKernel', 'FloatOrder'],
+    'C04': ['Expr', 'Shallow', 'Series'], 'C11': ['Expr', 'Shallow', 'Series'], 'C13': ['Expr', 'Shallow', 'Quadrant', 'Winding'], 'C19': ['Expr', 'Equiv', 'Dim', 'Sign'], 'C17': ['Expr', 'Effects'], 'C12': ['Expr', 'Equiv', 'Dim', 'Sign', 'Shallow', 'RootSelect', 'Series', 'Newton', 'Bracket', 'FloatOrder'], 'C16': ['Expr', 'Effects', 'ObjModel'], 'C09': ['Expr', 'Shallow', 'Pipeline'], 'C03': ['Expr', 'Shallow', 'Pipeline'], 'C06': ['Expr', 'Equiv', 'Sign', 'Shift', 'Replicate', 'DiffMat', 'TrigSum', 'DiffKernel', 'Bracket', 'InterpKernel'], 'C14': ['Expr', 'Shallow', 'TrigSum'], 'C15': ['Expr', 'Shallow', 'TrigSum', 'VmecEmit'], 'C18': ['Expr', 'ObjModel'], 'C10': ['Expr', 'Shallow'], 'C01': ['Expr', 'Shallow', 'Series'], 'C02': ['Expr', 'Shallow', 'Newton', 'RootSelect', 'Bracket', 'FloatOrder'],
+    'C20': ['Expr', 'Equiv', 'Sign', 'Shift', 'Replicate', 'DiffMat', 'Newton', 'Bracket', 'RootSelect', 'TrigSum', 'DiffKernel', 'InterpKernel', 'EvenKernel', 'FloatOrder', 'NewtonConv'],
 }
 CHECKS = {'C01': check_C01, 'C10': check_C10, 'C06': check_C06, 'C14': check_C14, 'C15': check_C15, 'C18': check_C18, 'C12': check_C12, 'C16': check_C16, 'C17': check_C17, 'C03': check_C03, 'C19': check_C19, 'C09': check_C09, 'C13': check_C13, 'C11': check_C11, 'C02': check_C02, 'C20': check_C20, 'C04': check_C04, 'C08': check_C08, 'C07': check_C07, 'C05': check_C05}
 
